@@ -82,6 +82,12 @@ func c05Schemas() []c05Schema {
 		{"map<long>", avro.Schema{Type: "map", Object: &avro.SchemaObject{Values: prim("long")}}, simple([]byte{2, 2, 'k', 6, 0})},
 		{"union[null,long]", avro.Schema{Type: "union", Union: []avro.Schema{prim("null"), prim("long")}}, simple([]byte{2, 10})},
 		{"union[string,null]", avro.Schema{Type: "union", Union: []avro.Schema{prim("string"), prim("null")}}, simple([]byte{0, 2, 'z'})},
+		// a boolean whose wire byte is neither 0 nor 1 (other writers emit 0xFF for true): what is
+		// stored is a Go bool, i.e. the byte 0 or 1
+		{"boolean/0xff", prim("boolean"), simple([]byte{0xff})},
+		{"boolean/0x02", prim("boolean"), simple([]byte{2})},
+		{"union[null,boolean]/0x02", un("null", "boolean"), simple([]byte{2, 2})},
+		{"union[boolean,null]/0x80", un("boolean", "null"), simple([]byte{0, 0x80})},
 		// the null branch of a nullable union over narrow fields: nothing may be stored
 		{"union[null,long]/null", un("null", "long"), simple([]byte{0})},
 		{"union[long,null]/null", un("long", "null"), simple([]byte{2})},
@@ -213,7 +219,7 @@ func runC05(r *Run) {
 				}
 				nbuilt++
 				r.Count("built/" + sc.name)
-				if c15IsWrapper(bt) {
+				if c15IsWrapper(bt) && !(bt == rtNullBool && strings.Contains(sc.name, "boolean")) {
 					// build decision and layout only: what these decode (timestamps, validity flags) is C13/C18/C19's
 					r.Count("built-wrapper/" + sc.name)
 					continue
